@@ -36,6 +36,19 @@ theorem accept_partition (h : p.verifyWith o kid pk ctx nonce issig i1 i2 = .ok 
   · intro kv hkv; simp [(hD kv hkv).2.2.2]
   · intro kv hkv; exact ⟨(hD kv hkv).1, (hD kv hkv).2.1, (hD kv hkv).2.2.1⟩
 
+/-- An accepted proof never reports a negative value that was hashed by magnitude: a disclosed
+    value longer than `Lm` bits enters `reconstructZ` as the SHA-256 of the bytes of its absolute
+    value (`attrExp`), so `-x` would verify wherever an oversized signed `x` does; `wellFormed`
+    rejects such a value (for every entry of the disclosed map, in any order, before anything is
+    reconstructed), hence no accepted proof contains one. No side condition. -/
+theorem accept_disclosed_not_negative_oversized
+    (h : p.verifyWith o kid pk ctx nonce issig i1 i2 = .ok true) :
+    ∀ i a, (i, some a) ∈ p.aDisclosed → ¬ (a < 0 ∧ bitLen a > pk.params.Lm) := by
+  have hw := (ProofD.accept_facts h).1
+  obtain ⟨_, _, _, _, _, hN⟩ := (ProofD.wellFormed_iff pk p).mp hw
+  intro i a hia
+  exact hN (i, some a) hia a rfl
+
 /-- In an accepted proof every hidden-value response lies in `[0, 2^(LmCommit+1))` and the
     exponent response in `[0, 2^(LeCommit+1))` (`correctResponseSizes`; in particular none is
     missing or negative). -/
@@ -86,7 +99,7 @@ theorem accept_rangeproofs_nonnil {rps : List (Int × List (Option RangeProof))}
     (h : p.verifyWith o kid pk ctx nonce issig i1 i2 = .ok true) (hrps : p.rangeProofs = some rps) :
     ∀ kv ∈ rps, p.aResponses.has kv.1 = true ∧ ∀ rp ∈ kv.2, rp.isSome := by
   have hw := (ProofD.accept_facts h).1
-  obtain ⟨_, _, _, _, hR⟩ := (ProofD.wellFormed_iff pk p).mp hw
+  obtain ⟨_, _, _, _, hR, _⟩ := (ProofD.wellFormed_iff pk p).mp hw
   rw [hrps] at hR
   exact hR
 
@@ -143,6 +156,16 @@ def accepted : GoM Bool := do
 #guard (do let p ← proof
            ({ p with rangeProofs := some [] }).verifyWith (fun _ _ => none) "" pk 42 43 false (-1) (-1))
         == (.ok true : GoM Bool)
+-- `accept_disclosed_not_negative_oversized`: with the disclosed value replaced by a negative
+-- value longer than `Lm` = 256 bits the proof is not well-formed (and not accepted); the
+-- magnitude alone does not make it ill-formed
+#guard (do let p ← proof
+           pure (({ p with aDisclosed := [(1, some (-(2 ^ 300)))] }).wellFormed pk,
+                 ({ p with aDisclosed := [(1, some (2 ^ 300))] }).wellFormed pk))
+        == (.ok (false, true) : GoM (Bool × Bool))
+#guard (do let p ← proof
+           ({ p with aDisclosed := [(1, some (-(2 ^ 300)))] }).verifyWith (fun _ _ => none) "" pk 42 43 false (-1) (-1))
+        == (.ok false : GoM Bool)
 
 end Demo
 
@@ -206,6 +229,7 @@ theorem default_params_sound {P : SysParams} (h : IsDefaultParams P) : ParamsSou
 end Gabi.C01
 
 #print axioms Gabi.C01.accept_partition
+#print axioms Gabi.C01.accept_disclosed_not_negative_oversized
 #print axioms Gabi.C01.accept_ranges
 #print axioms Gabi.C01.accept_challenge
 #print axioms Gabi.C01.accept_rangeproofs_lookup
